@@ -230,18 +230,43 @@ def apply_mech_op(m, op):
             op['dose'], start=op.get('start', 0),
             duration=op.get('duration', 0.01), period=op.get('period'),
             num=op.get('num'))
+    # The containers handed over are the caller's: he goes on using them
+    # (here: scribbles over them straight after the call).  The model must
+    # have taken what it needs.
     if k == 'set_outputs':
-        return m.set_outputs(list(op['outputs']))
+        arg = list(op['outputs'])
+        try:
+            return m.set_outputs(arg)
+        finally:
+            arg.reverse()
+            arg.append('no.such_output')
     if k == 'set_parameter_names':
-        return m.set_parameter_names(dict(op['names']))
+        arg = dict(op['names'])
+        try:
+            return m.set_parameter_names(arg)
+        finally:
+            arg.clear()
     if k == 'set_output_names':
-        return m.set_output_names(dict(op['names']))
+        arg = dict(op['names'])
+        try:
+            return m.set_output_names(arg)
+        finally:
+            arg.clear()
     if k == 'enable_sensitivities':
         if op.get('names') is not None:
-            return m.enable_sensitivities(op['enabled'], list(op['names']))
+            arg = list(op['names'])
+            try:
+                return m.enable_sensitivities(op['enabled'], arg)
+            finally:
+                arg.reverse()
+                arg.append('no such parameter')
         return m.enable_sensitivities(op['enabled'])
     if k == 'fix_parameters':
-        return m.fix_parameters(dict(op['values']))
+        arg = dict(op['values'])
+        try:
+            return m.fix_parameters(arg)
+        finally:
+            arg.clear()
     raise ValueError('unknown mech op ' + str(k))
 
 
